@@ -661,15 +661,24 @@ fn c09_execute_grid(r: &mut Runner) {
     let mut acc = 0u64;
     let mut viols: V = vec![];
     let im = instantiate_msg(&k);
-    for ch in channels {
+    // the protocol prefix is configuration too: "init" while the contract's own address (and the simulated
+    // chain) say "osmo" — the statement names the configured prefix
+    for (ch, prefix) in channels.iter().map(|c| (*c, PROTO_PREFIX)).chain([("channel-0", "init"), ("channel-42", "init")]) {
         for st in addr_spellings("c09-staker") {
             for co in addr_spellings("c09-collector") {
+                if prefix != PROTO_PREFIX && (st.len() > 70 || co.len() > 70) {
+                    continue;
+                }
                 let mut s = base.clone();
                 let mut nc = im.native_chain_config.clone();
                 nc.staker_address = st.clone();
                 nc.reward_collector_address = co.clone();
                 let mut pc = im.protocol_chain_config.clone();
                 pc.ibc_channel_id = ch.to_string();
+                if prefix != PROTO_PREFIX {
+                    pc.account_address_prefix = prefix.to_string();
+                    pc.oracle_address = None;
+                }
                 let ap = s.apply(&exec(&adm(), ExecuteMsg::UpdateConfig { native_chain_config: Some(nc), protocol_chain_config: Some(pc), protocol_fee_config: None, monitors: None, batch_period: None }, vec![]));
                 n += 1;
                 if !ap.out.ok {
@@ -696,10 +705,11 @@ fn c09_execute_grid(r: &mut Runner) {
                     ("ReceiveUnstakedTokens", cst.clone(), ExecuteMsg::ReceiveUnstakedTokens { batch_id: bid }, vec![(sd(), bexp)]),
                     ("ReceiveRewards", cco.clone(), ExecuteMsg::ReceiveRewards {}, vec![(sd(), 50u128)]),
                 ] {
-                    let exact = bech::hook_sender(&cch, &configured, PROTO_PREFIX);
+                    let cpre = cfg.protocol_chain_config.account_address_prefix.clone();
+                    let exact = bech::hook_sender(&cch, &configured, &cpre);
                     for c2 in &chans {
-                        for a2 in variants(&configured) {
-                            let acct = bech::hook_sender(c2, &a2, PROTO_PREFIX);
+                        for (a2, p2) in variants(&configured).into_iter().flat_map(|a| [(a.clone(), cpre.clone()), (a, if cpre == "osmo" { "init".to_string() } else { "osmo".to_string() })]) {
+                            let acct = bech::hook_sender(c2, &a2, &p2);
                             let mut w = s.w.clone();
                             for (d, a) in &funds {
                                 w.credit(&acct, d, *a);
